@@ -241,6 +241,56 @@ def build(route, recipe):
     raise ValueError("unknown route " + route)
 
 
+def drive_reflections(rec):
+    """reflections() on a real P1 crystal whose reciprocal lattice is the integer unimodular matrix M (extension, Reflections.tla)."""
+    import numpy as np
+    from chmpy.crystal import Crystal, UnitCell, SpaceGroup, AsymmetricUnit
+    from chmpy.core.element import Element
+    M = np.array(rec["M"], dtype=float)
+    K = rec["K"]
+    lam = 2.0 / math.sqrt(K + 0.5)
+    t = {"M": rec["M"], "Minv": rec["Minv"], "K": K, "sorted": bool(rec["sort"]), "exc": "", "off": False, "hkl": [], "G": [], "q2": [],
+         "meta": {"recipe": rec, "source": "unimodular-reciprocal-lattice", "nontrivial": True,
+                  "impl_call": "Crystal(P1, reciprocal lattice %r).unique_reflections(wavelength=2/sqrt(%d.5), dmin=wavelength/2, sort=%r)" % (rec["M"], K, rec["sort"])}}
+    try:
+        cr = Crystal(UnitCell(np.linalg.inv(M.T)), SpaceGroup(1), AsymmetricUnit([Element["C"]], np.array([[0.1, 0.2, 0.3]])))
+        r = cr.unique_reflections(wavelength=lam, dmin=lam / 2, sort=rec["sort"]) if rec["via"] == "crystal" else None
+        if r is None:
+            from chmpy.crystal.sfac import reflections
+            r = reflections(cr, wavelength=lam, dmin=lam / 2, sort=rec["sort"])
+        hkl, G, q = np.asarray(r.hkl), np.asarray(r.q, dtype=float), np.asarray(r.q_mag, dtype=float)
+        t["hkl"] = [[int(x) for x in row] for row in hkl]
+        t["G"] = [[int(round(x)) for x in row] for row in G]
+        t["q2"] = [int(round(x * x)) for x in q]
+        t["off"] = bool(np.any(np.abs(G - np.round(G)) > 1e-9) or np.any(np.abs(q * q - np.round(q * q)) > 1e-9)
+                        or not np.issubdtype(hkl.dtype, np.integer))
+    except Exception as e:
+        t["exc"] = type(e).__name__
+    return t
+
+
+def reflection_recipes(rng, count):
+    import numpy as np
+    out = []
+    while len(out) < count:
+        M = np.eye(3, dtype=int)
+        for _ in range(rng.randint(0, 3)):
+            i, j = rng.sample(range(3), 2)
+            S = np.eye(3, dtype=int)
+            S[i, j] = rng.choice([-1, 1])
+            M = M @ S
+        if rng.random() < 0.3:
+            M = M[[1, 2, 0]] if rng.random() < 0.5 else -M
+            if round(np.linalg.det(M)) < 0:
+                M[0] = -M[0]
+        Minv = np.round(np.linalg.inv(M)).astype(int)
+        if np.max(np.abs(M)) > 3 or np.max(np.abs(Minv)) > 3:
+            continue
+        out.append({"M": [[int(x) for x in r] for r in M], "Minv": [[int(x) for x in r] for r in Minv], "K": rng.randint(1, 14),
+                    "sort": rng.random() < 0.7, "via": rng.choice(["crystal", "module"])})
+    return out
+
+
 def drive(recipe):
     """recipe: kind 'L'|'G', L / G integer matrices, sn/sd scale, family, routes, pts."""
     import warnings
@@ -636,6 +686,9 @@ def run(ctx):
     # cells off the exact domain: decimal parameters, angles next to 90 / 120 degrees, edges a hair apart
     ftraces = pool_map(drive_float, float_recipes(ctx))
     ctx.validate("trace/Trace_LatticeF.tla", ftraces, consts="  K = %d\n" % K, timeout=900)
+    # beyond the listed property: the reflections inside the limiting sphere, which rest on the reciprocal lattice (Reflections.tla)
+    rtraces = pool_map(drive_reflections, reflection_recipes(random.Random(ctx.seed * 31 + 12), ctx.pick(60, 600)))
+    ctx.validate("trace/Trace_Reflections.tla", rtraces, name="Trace_Reflections (extension)", extension=True, timeout=900)
     ctx.notes["decimal_parameter_cells"] = len(ftraces)
     ctx.rule = ("exact integer cells (lattice L with entries -6..6 and det > 0, or a positive definite integer "
                 "Gram matrix; rational scale) built through every applicable construction route of the real "
